@@ -5,3 +5,6 @@
 (lemma appNil ((r Lst)) (= (app r LNil) r) :induct r)
 (lemma snocApp ((r Lst) (x Val) (t Lst)) (= (app (app r (LCons x LNil)) t) (app r (LCons x t))) :induct r)
 (lemma appAssoc ((a Lst) (b Lst) (c Lst)) (= (app (app a b) c) (app a (app b c))) :induct a)
+(lemma noMarkerNoExtra ((l Lst) (k String) (b Bool))
+  (=> (not (anyBoolKey l k b)) (and (not (markerExtra l k b)) (= (dropMarkers l k b) l))) :induct l)
+(lemma noStrNoRemove ((l Lst) (s String)) (=> (not (memStr l s)) (= (removeStr l s) l)) :induct l)
